@@ -20,6 +20,8 @@ def events():
         out += [(1, 1, a, b, 0) for a in (False, True) for b in (False, True)]
     out += [(1, k, False, False, 0) for k in (3, 8, 9, 10, 11, 12, 13, 14, 16, 17, 18, 19, 20)]
     out += [(1, 15, a, False, p) for a in (True, False) for p in (0, 1, 2)]
+    # the same last-block answers with the BOOLEAN written as another non-zero byte (A-XDR: any non-zero byte is TRUE)
+    out += [(1, k, False, True, 0) for k in (11, 12)]
     return out
 
 
@@ -43,7 +45,11 @@ def apply_event(config, s, d, k, a, b, p):
             payload = b"\x09\x11" + meter.hls_proof(valid=(p == 0))
         data = meter.protect(D.plain_apdu(15, data=payload, status=0 if a else 3))
     else:
-        data = meter.protect(D.plain_apdu(k))
+        plain = D.plain_apdu(k)
+        if k in (11, 12) and b:
+            assert plain[3] == 1
+            plain = plain[:3] + bytes([(0xFF, 0x80, 0x02)[s % 3]]) + plain[4:]
+        data = meter.protect(plain)
     conn.receive_data(data)
     o = guarded(conn.next_event)
     return [D.outcome(o), D.state_of(conn)]
@@ -53,6 +59,8 @@ def model_args(config, s, d, k, a, b, p):
     pre = config == "pre"
     if k == 15 and config != "hls":
         p = 2         # without keys the validation raises (ProtectionError)
+    if k != 1:
+        b = False     # for the other kinds b only selects an alternative encoding of the same event
     return [pre, s, d, k, a, b, p]
 
 
